@@ -407,6 +407,30 @@ def compare(script_lines, impl, model):
     return dis
 
 
+def purity_analysis(script_lines, impl):
+    """C18, second clause: the serialised form of a value is bit-identical before and after any batch of
+    queries.  Two `enc k` answers of the implementation inside one case, with no `mk k` / `op k` between
+    them, must be equal; this is a statement about the implementation alone (no model involved)."""
+    dis = []
+    cur_case = -1
+    last = {}
+    for i, req in enumerate(script_lines):
+        t = req.split(" ")
+        if t[0] == "case":
+            cur_case = int(t[1])
+            last = {}
+        elif t[0] in ("mk", "op", "free") and len(t) > 1:
+            last.pop(t[1], None)
+        elif t[0] == "enc" and i < len(impl):
+            k = t[1]
+            if k in last and last[k][1] != impl[i]:
+                dis.append({"type": "impl-vs-spec", "sub": "C18-purity", "line": i, "case": cur_case, "request": req,
+                            "impl": f"bytes after the queries {impl[i][:60]}", "spec": f"unchanged bytes {last[k][1][:60]}", "model": ""})
+            elif k not in last:
+                last[k] = (i, impl[i])
+    return dis
+
+
 def first_diff(a, b):
     k = 0
     m = min(len(a), len(b))
@@ -614,6 +638,13 @@ def space_analysis(pid, script_lines, impl, model, meta):
                 bound = 2 * n * ((1125 if bsz == 256 else 1063) + 10) // 1000 + 2600
                 if 8 * (ih + iself) > bound:
                     viol.append(dict(rec, type="impl-vs-spec", sub="C14-bound", spec=f"bits<={bound}", impl=f"bits={8 * (ih + iself)}"))
+            if pid == "C14" and fam in ("qv", "qvx", "qvpush", "qvext"):
+                # a plain quad vector, whichever way it was built: 2 bits per symbol, rounded up to one 512-bit line
+                vals_ = info["vals"][1:] if fam in ("qvpush", "qvext") else info["vals"]
+                n = len([x for x in vals_ if x])
+                bound = 2 * n + 512 + 64
+                if 8 * ih > bound:
+                    viol.append(dict(rec, type="impl-vs-spec", sub="C14-bound", spec=f"heap_bits<={bound}", impl=f"heap_bits={8 * ih}"))
             if pid == "C14" and fam == "rsw":
                 src = cur["mk"].get(info["src"])
                 if src and src["fam"] == "bvbits":
